@@ -501,14 +501,15 @@ func extZipNewReader(f *frame, cm *ssa.CallCommon, args []Val, st *State, name s
 }
 
 
-// extParseFloat: strconv.ParseFloat(s, 64) on a decimal integer string (what "%.0f"/Itoa produce) returns
-// that integer; on any other string the result is unconstrained (value and error).
+// extParseFloat: strconv.ParseFloat(s, 64) is a function of the string (pfloat_ok / pfloat); on a decimal
+// integer string (what "%.0f"/Itoa produce) it returns that integer.
 func extParseFloat(f *frame, cm *ssa.CallCommon, args []Val, st *State, name string, resT types.Type, pos token.Pos) Val {
 	c := f.c
 	r := f.freshResult(resT, st, name)
 	v, err := r.Tuple[0], r.Tuple[1]
-	c.assume(st, fmt.Sprintf("(=> (atoi_ok %s) (and (= (itag %s) 0) (= %s (to_real (atoi %s)))))", args[0].T, err.T, v.T, args[0].T))
-	c.assumed["strconv.ParseFloat(s, 64) = atoi(s) for decimal integer strings (atoi_ok), with atoi(itoa(n)) = n; other strings unconstrained"] = true
+	c.assume(st, fmt.Sprintf("(= (= (itag %s) 0) (pfloat_ok %s))", err.T, args[0].T))
+	c.assume(st, fmt.Sprintf("(=> (pfloat_ok %s) (= %s (pfloat %s)))", args[0].T, v.T, args[0].T))
+	c.assumed["strconv.ParseFloat(s, 64) is a function of s (uninterpreted pfloat_ok/pfloat) with pfloat(s) = atoi(s) for decimal integer strings (atoi_ok), atoi(itoa(n)) = n; the value returned on failure is unconstrained"] = true
 	return r
 }
 
